@@ -175,7 +175,7 @@ func profileFor(prop string) Profile {
 		p.PFleet, p.PDry, p.PGlobalDry = 0.8, 0, 0
 	case "C19":
 		p.PForceTaint, p.ShortGrace, p.PDry, p.PBigGroup, p.PExtTaint = 0.5, 0.9, 0.02, 0.12, 0.5
-		p.FaultBias = map[string]float64{OpTerminateASG: 5, OpDelete: 3}
+		p.FaultBias = map[string]float64{OpTerminateASG: 5, OpDelete: 3, OpDescribeASG: 3}
 	case "C20":
 		p.POdd, p.PCalm, p.PFleet, p.ShortCool = 0.7, 0.3, 0.3, 0.8
 	}
